@@ -219,7 +219,9 @@ macro_rules! impl_select_zero_small {
                     + BitLength
                     + NumBits
                     + SelectZeroHinted,
-            > SelectZeroUnchecked for SelectZeroSmall<$NUM_U32S, $COUNTER_WIDTH, C>
+                I: AsRef<[u32]>,
+                O: AsRef<[usize]>,
+            > SelectZeroUnchecked for SelectZeroSmall<$NUM_U32S, $COUNTER_WIDTH, C, I, O>
         {
             unsafe fn select_zero_unchecked(&self, rank: usize) -> usize {
                 let upper_counts = self.small_counters.upper_counts();
@@ -323,13 +325,15 @@ macro_rules! impl_select_zero_small {
                     + BitLength
                     + NumBits
                     + SelectZeroHinted,
-            > SelectZero for SelectZeroSmall<$NUM_U32S, $COUNTER_WIDTH, C>
+                I: AsRef<[u32]>,
+                O: AsRef<[usize]>,
+            > SelectZero for SelectZeroSmall<$NUM_U32S, $COUNTER_WIDTH, C, I, O>
         {
         }
     };
 }
 
-impl<C: SmallCounters<2, 9> + AsRef<[usize]> + BitLength + NumBits> SelectZeroSmall<2, 9, C> {
+impl<C: SmallCounters<2, 9> + AsRef<[usize]> + BitLength + NumBits, I, O> SelectZeroSmall<2, 9, C, I, O> {
     #[inline(always)]
     unsafe fn complete_select(
         &self,
@@ -383,8 +387,8 @@ impl<C: SmallCounters<2, 9> + AsRef<[usize]> + BitLength + NumBits> SelectZeroSm
     }
 }
 
-impl<C: SmallCounters<1, 9> + AsRef<[usize]> + BitLength + NumBits + SelectZeroHinted>
-    SelectZeroSmall<1, 9, C>
+impl<C: SmallCounters<1, 9> + AsRef<[usize]> + BitLength + NumBits + SelectZeroHinted, I, O>
+    SelectZeroSmall<1, 9, C, I, O>
 {
     #[inline(always)]
     unsafe fn complete_select(
@@ -424,8 +428,8 @@ impl<C: SmallCounters<1, 9> + AsRef<[usize]> + BitLength + NumBits + SelectZeroH
     }
 }
 
-impl<C: SmallCounters<1, 10> + AsRef<[usize]> + BitLength + NumBits + SelectZeroHinted>
-    SelectZeroSmall<1, 10, C>
+impl<C: SmallCounters<1, 10> + AsRef<[usize]> + BitLength + NumBits + SelectZeroHinted, I, O>
+    SelectZeroSmall<1, 10, C, I, O>
 {
     #[inline(always)]
     unsafe fn complete_select(
@@ -465,8 +469,8 @@ impl<C: SmallCounters<1, 10> + AsRef<[usize]> + BitLength + NumBits + SelectZero
     }
 }
 
-impl<C: SmallCounters<1, 11> + AsRef<[usize]> + BitLength + NumBits + SelectZeroHinted>
-    SelectZeroSmall<1, 11, C>
+impl<C: SmallCounters<1, 11> + AsRef<[usize]> + BitLength + NumBits + SelectZeroHinted, I, O>
+    SelectZeroSmall<1, 11, C, I, O>
 {
     #[inline(always)]
     unsafe fn complete_select(
@@ -506,8 +510,8 @@ impl<C: SmallCounters<1, 11> + AsRef<[usize]> + BitLength + NumBits + SelectZero
     }
 }
 
-impl<C: SmallCounters<3, 13> + AsRef<[usize]> + BitLength + NumBits + SelectZeroHinted>
-    SelectZeroSmall<3, 13, C>
+impl<C: SmallCounters<3, 13> + AsRef<[usize]> + BitLength + NumBits + SelectZeroHinted, I, O>
+    SelectZeroSmall<3, 13, C, I, O>
 {
     unsafe fn complete_select(
         &self,
